@@ -8,6 +8,7 @@ package main
 // (read-over-write), so loop-free verification conditions stay quantifier free.
 
 import (
+	"regexp"
 	"fmt"
 	"go/types"
 	"math/big"
@@ -428,8 +429,18 @@ func typeKey(t types.Type) string {
 		}
 		return path
 	})
+	// byte = uint8 and rune = int32 are the same types: one spelling for each
+	if strings.Contains(s, "uint8") {
+		s = reUint8.ReplaceAllString(s, "byte")
+	}
+	if strings.Contains(s, "rune") {
+		s = reRune.ReplaceAllString(s, "int32")
+	}
 	return s
 }
+
+var reUint8 = regexp.MustCompile(`\buint8\b`)
+var reRune = regexp.MustCompile(`\brune\b`)
 
 // elemBase is the base kind of the elements of a slice/array of elem type t.
 func elemBase(t types.Type) string { return "[]" + typeKey(t) }
